@@ -470,6 +470,36 @@ pub fn run(c: &Case) -> Outcome {
     }
 }
 
+/// libFuzzer entry: bring a decoded case into the domain of `strategy` / `capacity_strategy`
+pub fn fuzz_domain(c: &mut Case) -> bool {
+    c.width %= 3;
+    c.cap %= 11;
+    if c.ops.iter().any(|o| matches!(o, Op::BulkNodes(k) if *k >= 20)) {
+        // large fills belong to the u8 capacity class
+        c.width = 0;
+        c.cap = 0;
+        c.ops.truncate(10);
+        for o in c.ops.iter_mut() {
+            if let Op::BulkNodes(k) = o {
+                *k = (*k).max(100);
+            }
+        }
+    } else {
+        c.ops.truncate(160);
+    }
+    for o in c.ops.iter_mut() {
+        match o {
+            Op::AddNode(k) => *k %= 3,
+            Op::SetEdge(k, ..) => *k %= 6,
+            Op::NodeWeight(_, k) | Op::EdgeWeight(_, k) => *k %= 3,
+            Op::BulkNodes(k) if *k < 20 => *k = 1 + *k % 19,
+            Op::Extend(v) => v.truncate(3),
+            _ => {}
+        }
+    }
+    true
+}
+
 pub fn property() -> Property {
     Property {
         id: "C04",
@@ -480,7 +510,7 @@ pub fn property() -> Property {
         ],
         both_profiles: false,
         subs: vec![
-            sub("matrix/history", 400_000, 5_000_000, strategy, run),
+            sub_fuzz("matrix/history", 400_000, 5_000_000, strategy, run, fuzz_domain),
             sub("matrix/u8-capacity", 30_000, 1_000_000, capacity_strategy, run),
         ],
     }
